@@ -1972,8 +1972,8 @@ func (r stack) assembleStringStack(str []string, ot string, oc stackType) string
 			var joinChar string
 			if ljc := r.getListDelimiter(); len(ljc) > 0 {
 				joinChar = ljc
-			} else {
-				joinChar = pad
+			} else if !r.positive(nspad) {
+				joinChar = string(rune(32))
 			}
 			builder.WriteString(join(str, joinChar))
 		} else {
